@@ -914,6 +914,10 @@ func (ex *Exec) call(fn *ssa.Function, args []Value, env []Value) (result Value)
 		}
 		ex.unsupported("external function %s has no model", name)
 	}
+	if fn.Pkg != nil && fn.Pkg.Pkg.Path() == "reflect" {
+		// reflect's own code works on runtime representations this executor does not have
+		ex.unsupported("reflect operation %s is not modelled", name)
+	}
 	if fn.Pkg != nil {
 		ex.funcsSeen[name] = true
 	} else {
